@@ -21,7 +21,8 @@ for n in names:
     try:
         out = {}
         for p in meta["breaks"]:
-            r = subprocess.run([ROOT + "/check", p], capture_output=True, text=True, cwd=ROOT)
+            r = subprocess.run([ROOT + "/check", p], capture_output=True, text=True, cwd=ROOT,
+                               env=dict(os.environ, VERIF_WIDEN=os.environ.get("VERIF_WIDEN", "1")))
             v = [l for l in r.stdout.split("\n") if l.startswith("VIOLATION")]
             clause = None
             if v:
